@@ -11,4 +11,8 @@ def bounded_jobs(tier, seed):
         bj('rcc.b_C07', 'run_invalid_docs', tier, seed),
         bj('rcc.b_C07', 'run_failing_serialisation', tier, seed),
         bj('rcc.b_C07', 'run_warnings_only', tier, seed),
+        bj('rcc.b_C07', 'run_warning_filters', tier, seed),
+        bj('rcc.b_C07', 'run_target_paths', tier, seed),
+        bj('rcc.b_C07', 'run_writer_options', tier, seed),
+        bj('rcc.b_C07', 'run_process_locale', tier, seed),
     ]
